@@ -201,7 +201,7 @@ fn expected(case: &Case, chunks: &[Vec<u8>]) -> (Vec<F>, bool) {
         for d in chunks {
             let d = &d[..d.len().min(bufsize)];
             if case.discard {
-                out.extend(rl::scan_discard(d).frames.iter().map(|(_, f)| from_ref(f)));
+                out.extend(rl::scan_discard_complete(d).frames.iter().map(|(_, f)| from_ref(f)));
             } else {
                 let s = rl::scan_close(d);
                 out.extend(s.frames.iter().map(|(_, f)| from_ref(f)));
@@ -230,6 +230,64 @@ fn expected(case: &Case, chunks: &[Vec<u8>]) -> (Vec<F>, bool) {
             )
         }
     }
+}
+
+/// datagram mode, datagrams longer than the read buffer: where the excess is cut off is the library's business (the
+/// buffer holds at least `bufsize` octets). Every choice of a cut at or behind `bufsize`, per datagram, gives an
+/// admissible result; returns them all (capped), the reference result for the cut at `bufsize` first.
+fn datagram_alternatives(case: &Case, chunks: &[Vec<u8>], bufsize: usize) -> Vec<(Vec<F>, bool)> {
+    let mut alts: Vec<(Vec<F>, bool)> = vec![(vec![], false)];
+    for d in chunks {
+        // candidate cuts: the buffer size, every end of a frame behind it, the whole datagram
+        let mut cuts = vec![d.len().min(bufsize)];
+        if d.len() > bufsize {
+            let full = if case.discard {
+                rl::scan_discard_complete(d)
+            } else {
+                rl::scan_close(d)
+            };
+            for (at, f) in &full.frames {
+                let end = at + rl::encode(f.ctrl, f.dst, f.src, &f.payload).len();
+                if end > bufsize {
+                    cuts.push(end);
+                }
+            }
+            cuts.push(d.len());
+            cuts.dedup();
+        }
+        let mut next: Vec<(Vec<F>, bool)> = vec![];
+        for (frames, ended) in &alts {
+            if *ended {
+                next.push((frames.clone(), true));
+                continue;
+            }
+            for c in &cuts {
+                let part = &d[..*c];
+                let mut fr = frames.clone();
+                let mut ended = false;
+                if case.discard {
+                    fr.extend(
+                        rl::scan_discard_complete(part)
+                            .frames
+                            .iter()
+                            .map(|(_, f)| from_ref(f)),
+                    );
+                } else {
+                    let sc = rl::scan_close(part);
+                    fr.extend(sc.frames.iter().map(|(_, f)| from_ref(f)));
+                    ended = sc.error_at.is_some();
+                }
+                if !next.contains(&(fr.clone(), ended)) {
+                    next.push((fr, ended));
+                }
+            }
+            if next.len() > 256 {
+                break;
+            }
+        }
+        alts = next;
+    }
+    alts
 }
 
 fn is_frame_error(e: &LinkError) -> bool {
@@ -273,7 +331,7 @@ impl Prop for Stream {
         let per_item: Vec<Vec<u8>> = case.items.iter().map(|i| item_bytes(i).0).collect();
         let ch = chunks(case, &per_item);
         let total: usize = ch.iter().map(|c| c.len()).sum();
-        let (exp, exp_err) = expected(case, &ch);
+        let (mut exp, mut exp_err) = expected(case, &ch);
         let (got, err) = lib_read(
             case.discard,
             case.datagram,
@@ -281,6 +339,25 @@ impl Prop for Stream {
             &ch,
             exp.len() + 64,
         );
+        let overlong = case.datagram
+            && ch
+                .iter()
+                .any(|d| d.len() > buffer_size(case.frag_size as usize));
+        if overlong {
+            out.label("datagram_longer_than_the_read_buffer");
+            if got != exp || exp_err != is_frame_error(&err) {
+                let alts = datagram_alternatives(case, &ch, buffer_size(case.frag_size as usize));
+                if let Some((f, e)) = alts
+                    .iter()
+                    .find(|(f, e)| *f == got && *e == is_frame_error(&err))
+                    .or_else(|| alts.iter().find(|(f, _)| *f == got))
+                {
+                    out.label("overlong_datagram_cut_behind_the_minimum");
+                    exp = f.clone();
+                    exp_err = *e;
+                }
+            }
+        }
 
         // labels
         out.label(if case.discard { "discard" } else { "close" });
@@ -393,7 +470,9 @@ impl Prop for Stream {
                     s.error_at.is_none() && rl::doomed_prefix(&d[end.min(d.len())..])
                 };
                 if case.datagram {
-                    ch.iter().any(|d| tail_doomed(&d[..d.len().min(bufsize)]))
+                    ch.iter().any(|d| {
+                        tail_doomed(&d[..d.len().min(bufsize)]) || (overlong && tail_doomed(d))
+                    })
                 } else {
                     tail_doomed(&ch.iter().flatten().copied().collect::<Vec<u8>>())
                 }
@@ -916,7 +995,7 @@ impl Prop for Sessions {
             };
             let per_item: Vec<Vec<u8>> = s.items.iter().map(|i| item_bytes(i).0).collect();
             let ch = chunks(&one, &per_item);
-            let (exp, exp_err) = expected(&one, &ch);
+            let (mut exp, mut exp_err) = expected(&one, &ch);
             let limit = s.stop_after.map(|k| k as usize).unwrap_or(usize::MAX);
 
             let (io, mut peer) = pipe(case.datagram);
@@ -943,6 +1022,22 @@ impl Prop for Sessions {
                         end = Some(e);
                         break;
                     }
+                }
+            }
+            let bufsize = buffer_size(case.frag_size as usize);
+            if case.datagram && ch.iter().any(|d| d.len() > bufsize) {
+                // a datagram longer than the read buffer: every cut at or behind the minimum is admissible
+                out.label("datagram_longer_than_the_read_buffer");
+                let ended_in_error = end.as_ref().map(is_frame_error).unwrap_or(false);
+                let alts = datagram_alternatives(&one, &ch, bufsize);
+                let fits = |f: &Vec<F>| f.iter().take(limit).eq(got.iter());
+                if let Some((f, e)) = alts
+                    .iter()
+                    .find(|(f, e)| fits(f) && *e == ended_in_error)
+                    .or_else(|| alts.iter().find(|(f, _)| fits(f)))
+                {
+                    exp = f.clone();
+                    exp_err = *e;
                 }
             }
             let want: Vec<F> = exp.iter().take(limit).cloned().collect();
